@@ -25,7 +25,8 @@ RULE = ('seeded random histories (3..16 operations) over the hierarchy HA(x) <- 
         'own and inherited columns, selectBy, alternate-id lookup, rows referencing the middle level through a cascade=False '
         'foreign key; autocommit connection or one open Transaction; warm or cold identity map; in a third of the histories the '
         'classes\' default connection is another, empty database and every operation names its connection; in 35 % the hierarchy '
-        'is one of the 7 variants in which HB and/or HC and/or HB2 declare no own column; plus an enumerated stream '
+        'is one of the 7 variants in which HB and/or HC and/or HB2 declare no own column; 15 % of the creates pass an explicit id '
+        '(fresh, in use, zero, negative); plus an enumerated stream '
         '(every class x every failing level x every kind of failure, every entry class x every column, multi-column sets with an '
         'invalid own / inherited value through every entry class; every column-less variant x class x entry class fetched cold and warm '
         'through get from every ancestor level and select on every level, written and destroyed through what was handed out) and a malformed stream '
@@ -91,12 +92,22 @@ class Sim(object):
 
     def __init__(self, mode, shape=()):
         self.mode, self.seq, self.live, self.vals, self.shape = mode, 0, {}, {}, shape
+        self.ids = set()          # every id ever handed out
 
     def used(self, col, v, but=None):
         return v is not None and any(d.get(col) == v for i, d in self.vals.items() if i != but)
 
-    def create(self, k, kw, unk):
+    def create(self, k, kw, unk, eid=None):
         chain = CHAIN[k]
+        if k == 'A' and eid is not None:
+            v = kw.get('x')
+            if unk or v in ('bad', None) or self.used('x', v) or eid in self.ids:
+                return
+            self.ids.add(eid)
+            self.seq = max(self.seq, eid)
+            self.live[eid] = 'A'
+            self.vals[eid] = {'x': v}
+            return
         if 'B' in chain and 'y' not in kw and 'B' not in self.shape:
             return
         for n, c in enumerate(chain):
@@ -105,6 +116,7 @@ class Sim(object):
             bad = v == 'bad' or self.used(col, v) or (col == 'x' and v is None) or (unk and c == k)
             if c == 'A' and not bad:
                 self.seq += 1
+                self.ids.add(self.seq)
             if bad:
                 return
         self.live[self.seq] = k
@@ -140,7 +152,7 @@ def strip_op(op, shape):
     gone = lambda col: col is not None and CLSOF[col] in shape
     t = op[0]
     if t == 'create':
-        return ['create', op[1], {c: v for c, v in op[2].items() if not gone(c)}, op[3]]
+        return ['create', op[1], {c: v for c, v in op[2].items() if not gone(c)}] + list(op[3:])
     if t == 'setattr' and gone(op[3]):
         return ['get', op[1], op[2]]
     if t == 'set':
@@ -202,8 +214,14 @@ def gen_history0(rng, n, mode, warm, refs, conn, shape):
                 kw[col] = value(col, 0.75 if col == 'x' else 0.5)
             unk = rng.random() < 0.05
             kw = strip_op(['create', k, kw, unk], shape)[2]
-            ops.append(['create', k, kw, unk])
-            sim.create(k, kw, unk)
+            eid = None
+            if rng.random() < 0.15:
+                # an explicit id: fresh, in use (now or earlier), zero, negative
+                q = rng.random()
+                eid = (sim.seq + rng.randint(1, 4) if q < 0.4 else rng.choice(sorted(sim.ids) or [1]) if q < 0.65
+                       else 0 if q < 0.8 else -rng.randint(1, 3))
+            ops.append(['create', k, kw, unk] + ([eid] if eid is not None else []))
+            sim.create(k, kw, unk, eid)
         elif r < 0.38:
             e = rng.choice(CLASSES)
             ops.append(['get', e, anyid(e)])
@@ -324,6 +342,25 @@ def enum_cases():
     return out
 
 
+def enum_id_cases():
+    """explicit ids on the constructor of every class: fresh, in use, zero, negative; then probes through every level"""
+    out = []
+    n = 0
+    for shape in [[]] + SHAPES[:3]:
+        def kw(k, v):
+            return {COLOF[c]: v for c in CHAIN[k] if c not in shape}
+        for k in CLASSES:
+            for eid in (40, 1, 0, -2):
+                n += 1
+                ops = [['create', 'C', kw('C', 1), False], ['create', k, kw(k, 2), False, eid], ['select', 'A', ['true']]]
+                ops += [['get', e, eid] for e in CHAIN[k]] + [['get', e, 2] for e in CHAIN[k]]
+                ops += [['create', k, kw(k, 3), False], ['select', k, ['true']], ['destroy', 'A', eid], ['destroy', 'A', 2],
+                        ['create', 'A', {'x': 4}, False, eid], ['create', 'A', {'x': 5}, False], ['select', 'A', ['true']]]
+                out.append({'mode': 'txn' if n % 5 == 0 else 'auto', 'warm': n % 2 == 0, 'conn': 'explicit' if n % 3 == 0 else 'default',
+                            'shape': shape, 'ops': ops})
+    return out
+
+
 def enum_shape_cases():
     """hierarchies in which some levels declare no own column: every class x every entry class, fetched on a cold and on a
     warm cache through get from every ancestor level and through select on every level, written and destroyed through what
@@ -384,11 +421,17 @@ SEEDED = [
     {'mode': 'auto', 'warm': False, 'conn': 'default', 'shape': ['B'],
      'ops': [['create', 'C', {'x': 1, 'z': 1}, False], ['create', 'C', {'x': 2, 'z': 2}, False], ['get', 'A', 1], ['get', 'B', 1],
              ['get', 'C', 1], ['select', 'B', ['true']], ['destroy', 'A', 2], ['select', 'A', ['true']]]},
+    # seeded C15/c15_explicit_id_only_on_own_row: an explicit id on a subclass constructor (the unchanged code drops it)
+    {'mode': 'auto', 'warm': False, 'conn': 'default', 'shape': [],
+     'ops': [['create', 'C', {'x': 1, 'y': 1, 'z': 1}, False], ['create', 'C', {'x': 2, 'y': 2, 'z': 2}, False, 40], ['select', 'A', ['true']],
+             ['get', 'C', 40], ['get', 'A', 2], ['create', 'B2', {'x': 3, 'w': 3}, False, 1], ['create', 'A', {'x': 4}, False, 40],
+             ['create', 'A', {'x': 5}, False, 40], ['create', 'A', {'x': 6}, False, -1], ['create', 'B', {'x': 7, 'y': 7}, False],
+             ['select', 'A', ['true']], ['destroy', 'A', -1], ['destroy', 'A', 2], ['select', 'A', ['true']]]},
 ]
 
 
 def generate(rng, tier):
-    out = list(enum_cases()) + enum_shape_cases()
+    out = list(enum_cases()) + enum_shape_cases() + enum_id_cases()
     n = 3000 if tier == "quick" else 30000
     for i in range(n):
         out.append(gen_history(rng, rng.randint(3, 16)))
@@ -580,6 +623,8 @@ def run_history(case):
                     kw = dict(op[2])
                     if op[3]:
                         kw['nosuch'] = 1
+                    if len(op) > 4 and op[4] is not None:
+                        kw['id'] = op[4]
                     kw.update(ckw)
                     o = fx[op[1]](**kw)
                     r = ['id', o.id, KOFPY.get(canon(type(o).__name__), '?'), views(o, shape)]
@@ -1075,8 +1120,10 @@ def cq_op(op, shape=()):
         for k in shape:
             if k in CHAIN[op[1]]:
                 kw[COLOF[k]] = None
-        return '(Create %s (mkargs %s) %s)' % (CQ[op[1]], ' '.join(cq_inval(kw.get(c), c in kw) for c in 'xyzw'),
-                                               'true' if op[3] else 'false')
+        args = '%s (mkargs %s) %s' % (CQ[op[1]], ' '.join(cq_inval(kw.get(c), c in kw) for c in 'xyzw'), 'true' if op[3] else 'false')
+        if len(op) > 4 and op[4] is not None:
+            return '(CreateId %s %s)' % (args, zlit(op[4]))
+        return '(Create %s)' % args
     if t == 'get':
         return '(Get %s %s)' % (CQ[op[1]], zlit(op[2]))
     if t == 'setattr':
